@@ -29,7 +29,9 @@ RULE = (
     "non-ASCII) that must be rejected at encode time; (msg) every class of cascade.executor.msg through ser_message/des_message "
     "and through ReliableSender.send / send_data -> Listener over the in-memory zmq; (report) ControllerReport; (gateway) every "
     "request through request_response -> parse_request and every response through serialize_response -> the client's parser; "
-    "(job) JobInstance from harness.genjob through orjson.dumps(job.dict()) -> JobInstance(**orjson.loads()). "
+    "(job) JobInstance from harness.genjob (dotted names, shared callables, twin tasks) through orjson.dumps(job.dict()) -> "
+    "JobInstance(**orjson.loads()), and the same bytes written to an instance file and read back by the real "
+    "cascade.benchmarks.__main__.get_job (the route the gateway uses to hand a job to the process that runs it). "
     "non-trivial = a size >= 2^32, or a message with >= 1 non-empty nested field (list/set/dict/bytes), or a job with >= 1 "
     "keyword edge and >= 1 multi-output task; distinct = fingerprint of the message"
 )
